@@ -183,15 +183,19 @@ func (b *builder) build(goal ast.Atom, depth int) []*ProofNode {
 		if !allOnStack(c.deps, b.onStack) {
 			continue
 		}
-		if usable := withoutOnStack(c.proofs, b.onStack); len(usable) > 0 || len(c.proofs) == 0 {
+		if usable, blocking := usableProofs(c.proofs, b.onStack); len(usable) > 0 || len(c.proofs) == 0 {
 			b.cutLog = append(b.cutLog, c.deps...)
+			// What is left after dropping proofs is only what is known while
+			// the goals that block the dropped ones are on the stack.
+			b.cutLog = append(b.cutLog, blocking...)
 			return usable
 		}
 	}
 	if cached, ok := b.cache[h]; ok {
 		// See explainer.explain: a cached proof is only reusable if it does
 		// not pass through a goal that is being proved right now.
-		if usable := withoutOnStack(cached, b.onStack); len(usable) > 0 || len(cached) == 0 {
+		if usable, blocking := usableProofs(cached, b.onStack); len(usable) > 0 || len(cached) == 0 {
+			b.cutLog = append(b.cutLog, blocking...)
 			return usable
 		}
 	}
@@ -257,6 +261,38 @@ func (b *builder) build(goal ast.Atom, depth int) []*ProofNode {
 		b.cond[h] = append(b.cond[h], condResult{deps, proofs})
 	}
 	return proofs
+}
+
+// usableProofs returns the proofs that do not pass through a goal on the stack
+// and, for each proof that does, one such goal.
+func usableProofs(proofs []*ProofNode, onStack map[uint64]bool) (usable []*ProofNode, blocking []uint64) {
+	if len(onStack) == 0 {
+		return proofs, nil
+	}
+	for _, p := range proofs {
+		if g, ok := findOnStack(p, onStack, make(map[*ProofNode]bool)); ok {
+			blocking = append(blocking, g)
+			continue
+		}
+		usable = append(usable, p)
+	}
+	return usable, blocking
+}
+
+func findOnStack(n *ProofNode, onStack map[uint64]bool, seen map[*ProofNode]bool) (uint64, bool) {
+	if n == nil || seen[n] {
+		return 0, false
+	}
+	seen[n] = true
+	if h := n.Fact.Hash(); n.Kind != KindAbsence && onStack[h] {
+		return h, true
+	}
+	for _, p := range n.Premises {
+		if g, ok := findOnStack(p, onStack, seen); ok {
+			return g, true
+		}
+	}
+	return 0, false
 }
 
 // condResult is a result that is valid while the goals in deps are on the stack.
